@@ -204,6 +204,22 @@ def gen_sched_case(rng, transport, template, deadline):
             "deadline": deadline, "others": others, "follow": f}
 
 
+def corpus_cases(ctx, hook):
+    """corpus/C10-*.json: inputs that failed once (repaired defects).  They run first and must pass."""
+    import glob
+    out = []
+    for n, f in enumerate(sorted(glob.glob(os.path.join(hv.V, "corpus", "C10-*.json")))):
+        r = json.load(open(f))
+        c = dict(r["case"])
+        if c.get("hook") and not hook:
+            continue
+        c["id"] = 900000 + n
+        c["corpus"] = os.path.basename(f)
+        c["fixed_by"] = r.get("fixed_by")
+        out.append(c)
+    return out
+
+
 def gen_cases(ctx, hook):
     rng = ctx.rng
     quick = ctx.tier == "quick"
@@ -318,6 +334,11 @@ def ops_from_log(case, obs):
                     cur_conn[m2] = c
                     at[(c, i2)] = m2
             elif kind == "t:store" and m is not None:
+                op(["S", m])
+                state[m] = "stored"
+            elif kind == "y:after-store" and m is not None and state.get(m) == "conn":
+                # no store event: the connection had been closed and store handed the close error to the caller
+                # instead of registering (the event hook sits behind the closeErr test)
                 op(["S", m])
                 state[m] = "stored"
             elif kind == "y:dequeued":
@@ -503,7 +524,8 @@ def run_model_expanding(lines):
                     # which connection?  the one pooled before the swap: the highest dialled so far
                     conn = max([int(t.split(":")[1]) for t in head if t.startswith("D:")] or [0])
                     pend_here = conn_pending(toks[:j], out, conn)
-                    rep = ["cs", a] + (["ct", a] if pend_here else []) + ["cd", a, "oe", "r%d" % conn, "1", "cd", "r%d" % conn]
+                    rep = ["cs", a] + (["ct", a] if pend_here else []) + ["cd", a, "oe", "r%d" % conn, "1", "cd", "r%d" % conn,
+                                                                      "oe", "s%d" % conn, "0"]
                 else:
                     rep = []
                 toks[j:j + 1] = rep
@@ -682,7 +704,9 @@ def run(ctx):
         ctx.note("hook_note", "the tree under test has no verif hooks in rpc/{socket,websocket,udp}: racing orders cannot be forced and the "
                  "pending table cannot be counted; the witness schedule of C10_prompt_on_close_refuted / C10_no_stuck_caller_refuted is "
                  "proved for the model but not replayed on the implementation. Apply hooks/c09c10-transports.patch to enable")
-    cases = gen_cases(ctx, hook)
+    corpus = corpus_cases(ctx, hook)
+    ctx.note("corpus_cases", len(corpus))
+    cases = corpus + gen_cases(ctx, hook)
     rc, obs, err = hv.run_harness_parallel(exe, cases, 8, timeout=1500)
     byid = {o["id"]: o for o in obs if "fatal" not in o}
     if len(byid) != len(cases):
@@ -775,16 +799,20 @@ def evaluate(ctx, cases, byid):
     where = {}
     for c, o, key, text, out in hits:
         where.setdefault(key, set()).add(group(c["transport"]))
+    ctx.note("corpus_passed", sum(1 for c in cases if c.get("corpus")) - len({c["corpus"] for c, _, _, _, _ in hits if c.get("corpus")}))
+    hits.sort(key=lambda h: 0 if h[0].get("corpus") else 1)
     for c, o, key, text, out in hits:
         if key in seen:
             continue
         seen.add(key)
         text += " [seen in rpc/: %s]" % ", ".join(sorted(where[key]))
+        if c.get("corpus"):
+            text = "corpus case %s (repaired by %s) fails again: %s" % (c["corpus"], c.get("fixed_by"), text)
         wit = None
         if "registered-after-clean" in key:
-            wit = "C10_prompt_on_close_refuted, C10_no_stuck_caller_refuted"
+            wit = "C10_prompt_on_close_old_refuted, C10_no_stuck_caller_old_refuted"
         if "abort-leaves-send" in key:
-            wit = "C10_threads_exit_refuted"
+            wit = "C10_threads_exit_old_refuted"
         ctx.report(key, text, {"case": c, "observation": slim(o), "model": out[-400:], "failing_input": True, "coq_witness": wit})
     if disagreements and not hits:
         c, o, d, out = disagreements[0]
